@@ -96,47 +96,70 @@ def gen_and_build_model():
     return out.strip()
 
 
+def property_modules(prop):
+    """All property files of a property: AdbProofs/Properties/<prop>.lean and <prop><Suffix>.lean (e.g. C01Utf8, C11Txn)."""
+    d = os.path.join(LEAN_DIR, "AdbProofs", "Properties")
+    mods = []
+    for fn in sorted(os.listdir(d)):
+        if fn.endswith(".lean") and fn.startswith(prop) and (len(fn) == len(prop) + 5 or not fn[len(prop)].isdigit()):
+            mods.append(fn[:-5])
+    return mods
+
+
 def property_theorems(prop):
-    """Names of the theorems stated in AdbProofs/Properties/<prop>.lean (the obligations)."""
-    path = os.path.join(LEAN_DIR, "AdbProofs", "Properties", prop + ".lean")
-    if not os.path.exists(path):
-        return []
-    with open(path) as f:
-        text = strip_comments(f.read())
-    ns = re.findall(r"^namespace\s+(\S+)", text, re.M)
-    prefix = (ns[0] + ".") if ns else ""
-    return [prefix + m for m in re.findall(r"^theorem\s+([A-Za-z0-9_'.]+)", text, re.M)]
+    """(module, qualified theorem name) for every theorem stated in the property's files (the obligations)."""
+    out = []
+    for mod in property_modules(prop):
+        path = os.path.join(LEAN_DIR, "AdbProofs", "Properties", mod + ".lean")
+        with open(path) as f:
+            text = strip_comments(f.read())
+        # track the namespace in force at each theorem
+        ns = []
+        for line in text.split("\n"):
+            m = re.match(r"^namespace\s+(\S+)", line)
+            if m:
+                ns.append(m.group(1))
+                continue
+            m = re.match(r"^end\s+(\S+)", line)
+            if m and ns and ns[-1].split(".")[-1] == m.group(1).split(".")[-1]:
+                ns.pop()
+                continue
+            m = re.match(r"^(?:protected\s+)?theorem\s+([A-Za-z0-9_'.]+)", line)
+            if m:
+                out.append((mod, ".".join(ns + [m.group(1)])))
+    return out
 
 
 def build_proofs(prop):
-    """Build the property module (kernel re-check against regenerated facts) and audit axioms.
+    """Build the property modules (kernel re-check against regenerated facts) and audit axioms.
 
     Returns dict(ok, obligations, discharged, axioms{thm: [...]}, log, broken[list of theorem names or module])."""
+    mods = property_modules(prop)
     thms = property_theorems(prop)
-    res = dict(ok=False, obligations=len(thms), discharged=0, axioms={}, log="", broken=[])
-    rc, out = sh(["lake", "build", "AdbProofs.Properties." + prop], cwd=LEAN_DIR, timeout=3600)
+    res = dict(ok=False, obligations=len(thms), discharged=0, axioms={}, log="", broken=[], modules=mods)
+    if not mods or not thms:
+        res["broken"] = ["no theorems stated for " + prop]
+        return res
+    rc, out = sh(["lake", "build"] + ["AdbProofs.Properties." + m for m in mods], cwd=LEAN_DIR, timeout=3600)
     res["log"] = out[-6000:]
     if rc != 0:
         errs = re.findall(r"error: (\S+?\.lean):(\d+):\d+: (.*)", out)
-        res["broken"] = ["%s:%s %s" % e for e in errs[:10]] or ["AdbProofs.Properties." + prop]
-        return res
-    if not thms:
-        res["broken"] = ["no theorems stated for " + prop]
+        res["broken"] = ["%s:%s %s" % e for e in errs[:10]] or ["build of %s failed" % mods]
         return res
     os.makedirs(WORK, exist_ok=True)
     audit = os.path.join(WORK, "Audit_%s_%d.lean" % (prop, os.getpid()))
     with open(audit, "w") as f:
-        f.write("import AdbProofs.Properties.%s\n" % prop)
-        for t in thms:
+        for m in mods:
+            f.write("import AdbProofs.Properties.%s\n" % m)
+        for _, t in thms:
             f.write("#print axioms %s\n" % t)
     rc, out = sh(["lake", "env", "lean", audit], cwd=LEAN_DIR)
     os.unlink(audit)
     if rc != 0:
         res["broken"] = ["audit failed: " + out[-2000:]]
         return res
-    # parse: "'Name' depends on axioms: [a, b]" (possibly wrapped) or "'Name' does not depend on any axioms"
     flat = re.sub(r"\s+", " ", out)
-    for t in thms:
+    for _, t in thms:
         m = re.search(r"'%s' depends on axioms: \[([^\]]*)\]" % re.escape(t), flat)
         if m:
             ax = [a.strip() for a in m.group(1).split(",") if a.strip()]
@@ -267,8 +290,8 @@ def write_evidence(report, proofs, wall_s, violations, extra=None):
     cov = {
         "obligations": proofs["obligations"],
         "discharged": proofs["discharged"],
-        "checker_cmd": "cd lean && lake build AdbProofs.Properties.%s && lake env lean <generated #print axioms file>" % report.prop
-                       + ("; lake env leanchecker AdbProofs.Properties.%s" % report.prop if report.tier == "thorough" else ""),
+        "checker_cmd": "cd lean && lake build %s && lake env lean <generated file with #print axioms for each theorem>" % " ".join("AdbProofs.Properties." + m for m in proofs.get("modules", [report.prop]))
+                       + ("; lake env leanchecker <the same modules>" if report.tier == "thorough" else ""),
         "trusted_base": [
             "Lean 4.33.0 kernel; axioms allowed in property theorems: propext, Classical.choice, Quot.sound (audited with #print axioms every run)",
             "harness/gen.py (facts regenerated from the current source: constants, lock nesting, guard prefixes)",
